@@ -143,13 +143,14 @@ extern "C" size_t LLVMFuzzerCustomMutator(uint8_t *Data, size_t Size, size_t Max
 				if (H.cards.empty()) break; size_t ci = r.below(H.cards.size()); std::string k = card_key(H.cards[ci]); long v;
 				if (!card_long(H, k, v)) break;
 				static const long deltas[] = {-1, 1, -2, 2, 0};
-				long nv; switch (r.below(6)) { case 0: nv = 0; break; case 1: nv = -v; break; case 2: nv = v * 2; break; case 3: nv = r.coin(0.5) ? 2147483647L : 4294967296L + (v & 0xff); break; default: nv = v + deltas[r.below(4)]; break; }
+				unsigned long uv = (unsigned long)v; long nv; // (wrap-around arithmetic: v may already be LONG_MAX)
+				switch (r.below(6)) { case 0: nv = 0; break; case 1: nv = (long)(0ul - uv); break; case 2: nv = (long)(uv * 2ul); break; case 3: nv = r.coin(0.5) ? 2147483647L : 4294967296L + (long)(uv & 0xff); break; default: nv = (long)(uv + (unsigned long)deltas[r.below(4)]); break; }
 				H.cards[ci] = card_int(k, nv); break; }
 			case 3: { // resize the data unit without touching the header
 				size_t n = H.data.size(); size_t nn = r.coin(0.5) ? n + (r.coin(0.5) ? 4 : 2880) : (n > 8 ? n - (r.coin(0.5) ? 4 : std::min<size_t>(n, 8 * (1 + r.below(4)))) : 0); H.data.resize(nn, 0); break; }
 			case 4: { // resize the data unit consistently along axis 1
 				long n1; if (!card_long(H, "NAXIS1", n1) || n1 <= 0) break; long bp; if (!card_long(H, "BITPIX", bp)) break; size_t el = (size_t)(std::abs(bp) / 8); if (!el) break;
-				size_t rows = H.data.size() / ((size_t)n1 * el); long nn = std::max<long>(0, n1 + (r.coin(0.5) ? 1 : -1)); H.cards[0] = H.cards[0]; set_card(H, "NAXIS1", card_int("NAXIS1", nn)); H.data.resize(rows * (size_t)nn * el, 0); break; }
+				if (n1 > (1L << 40)) break; size_t rows = H.data.size() / ((size_t)n1 * el); long nn = std::max<long>(0, n1 + (r.coin(0.5) ? 1 : -1)); if (rows > (1u << 20)) break; H.cards[0] = H.cards[0]; set_card(H, "NAXIS1", card_int("NAXIS1", nn)); H.data.resize(rows * (size_t)nn * el, 0); break; }
 			case 5: if (h.size() > 1) { size_t a = r.below(h.size()), b = r.below(h.size()); if (a && b) std::swap(h[a], h[b]); } break; // reorder extensions
 			case 6: if (h.size() > 1 && hi > 0) h.erase(h.begin() + hi); break;                                                       // drop an extension
 			case 7: if (h.size() < 12 && hi > 0) h.insert(h.begin() + hi, h[hi]); break;                                                // duplicate an extension
